@@ -116,7 +116,7 @@ def model_level(n):
 def run(run):
     sweep.install()
     if run.thorough:
-        light = {(1, 1): None, (1, 2): None, (2, 1): None, (2, 2): None, (3, 1): None, (3, 2): None, (4, 1): 40, (4, 2): 40}
+        light = {(1, 1): None, (1, 2): None, (2, 1): None, (2, 2): None, (3, 1): None, (3, 2): None, (4, 1): 30, (4, 2): 10}
         ml = [1, 2, 3, 4]
     else:
         light = {(1, 1): None, (1, 2): None, (2, 1): None, (2, 2): None, (3, 1): None, (3, 2): 70, (4, 1): 3}
